@@ -35,8 +35,19 @@ MIRIFLAGS = ("-Zmiri-disable-stacked-borrows -Zmiri-permissive-provenance -Zmiri
              "-Zmiri-deterministic-floats")
 
 
+class _TimedOut:
+    """stands in for a CompletedProcess when a command did not finish (so that nothing waits forever)"""
+    def __init__(self, e):
+        self.returncode = -999
+        self.stdout = (e.stdout.decode(errors="replace") if isinstance(e.stdout, bytes) else e.stdout) or ""
+        self.stderr = "TIMEOUT after %s s: %s" % (e.timeout, " ".join(map(str, e.cmd))[:200])
+
+
 def sh(cmd, env=None, timeout=None):
-    return subprocess.run(cmd, cwd=C18, env=env or ENV, capture_output=True, text=True, timeout=timeout)
+    try:
+        return subprocess.run(cmd, cwd=C18, env=env or ENV, capture_output=True, text=True, timeout=timeout or 3600)
+    except subprocess.TimeoutExpired as e:
+        return _TimedOut(e)
 
 
 def build():
